@@ -87,6 +87,17 @@ theorem Builder.transpose_sticks (steps : List (BStep K)) (c : BCfg K)
       · left; simp [BCfg.apply]
       · right; exact h
 
+/-- `transpose()` sets the direction, it does not toggle it: calling it again changes nothing -/
+theorem Builder.transpose_idempotent (c : BCfg K) :
+    (c.apply .transpose).apply .transpose = c.apply .transpose := by
+  simp [BCfg.apply]
+
+/-- of two `target` calls (or of `min()` and `max()`) the last one wins -/
+theorem Builder.last_call_wins (c : BCfg K) (a b : K) :
+    ((c.apply (.target a)).apply (.target b)) = c.apply (.target b)
+    ∧ ((c.apply .min).apply .max) = c.apply .max ∧ ((c.apply .max).apply .min) = c.apply .min := by
+  simp [BCfg.apply]
+
 example : BCfg.build [BStep.transpose, .max, .target (3 : Nat)] = BCfg.build [.target 3, .max, .transpose] := by decide
 
 end G
